@@ -39,6 +39,9 @@ func zzEncode(ib infoType) []byte {
 		"pieces":       string(ib.Pieces),
 		"name":         ib.Name,
 	}
+	if ib.NameUTF8 != "" {
+		d["name.utf-8"] = ib.NameUTF8
+	}
 	if len(ib.Files) > 0 {
 		var fl []interface{}
 		for _, f := range ib.Files {
@@ -47,6 +50,13 @@ func zzEncode(ib infoType) []byte {
 				p = append(p, c)
 			}
 			m := map[string]interface{}{"length": f.Length, "path": p}
+			if len(f.PathUTF8) > 0 {
+				var pu []interface{}
+				for _, c := range f.PathUTF8 {
+					pu = append(pu, c)
+				}
+				m["path.utf-8"] = pu
+			}
 			if f.Attr != "" {
 				m["attr"] = f.Attr
 			}
@@ -156,6 +166,11 @@ func ZZSymbolicPathsInfoN(maxName, maxComp, maxFiles, maxComps int) (*Info, erro
 		ib.Name = "t"
 	} else {
 		ib.Name = zzStr("torrent_name", vrt.Choice("name_len", maxName+1))
+		// the arbitrary name may instead arrive in the optional "name.utf-8" key,
+		// which overrides a harmless plain "name"
+		if len(ib.Name) > 0 && vrt.Bool("name_in_utf8_key") {
+			ib.Name, ib.NameUTF8 = "x", ib.Name
+		}
 	}
 	nf := vrt.Choice("num_files", maxFiles+1)
 	switch nf {
@@ -170,6 +185,10 @@ func ZZSymbolicPathsInfoN(maxName, maxComp, maxFiles, maxComps int) (*Info, erro
 		nc := vrt.Choice("num_components", maxComps) + 1
 		for c := 0; c < nc; c++ {
 			ib.Files[i].Path = append(ib.Files[i].Path, zzStr("path_component", vrt.Choice("component_len", maxComp+1)))
+		}
+		// likewise the arbitrary path may arrive in "path.utf-8", overriding a harmless "path"
+		if vrt.Bool("path_in_utf8_key") {
+			ib.Files[i].Path, ib.Files[i].PathUTF8 = []string{"x"}, ib.Files[i].Path
 		}
 	}
 	zzInfo = ib
